@@ -1,5 +1,6 @@
 (* GenEquiv.v — the second tie between model and source (DESIGN.md 4.2), split by kernel so that an edit of one Go kernel breaks only
    the lemmas (and the property files) that depend on it: GenTac (tactic, CalculateArithmeticShift), GenEqCheck, GenEqAlt, GenEqZoom, GenEqHigher, GenEqConst
    over generated/Generated.v (integers), GenEqFloat (= GenFTac, GenEqFPoint, GenEqFVertex, GenEqFBit, GenEqFShift) over generated/GeneratedF.v (binary64),
-   GenEq64 (= I64, GenEq64Tac, GenEq64Alt, GenEq64Zoom, GenEq64Merge, GenEq64Quadkey) over generated/Generated64.v (the integer kernels with Go's int64 semantics). *)
-From SID Require Export GenTac GenEqCheck GenEqAlt GenEqZoom GenEqHigher GenEqConst GenEqFloat GenEq64.
+   GenEq64 (= I64, GenEq64Tac, GenEq64Alt, GenEq64Zoom, GenEq64Merge, GenEq64Quadkey) over generated/Generated64.v (the integer kernels with Go's int64 semantics),
+   GenEqFSpatial over generated/GeneratedFS.v (the float64 helpers of common/spatial, struct values as tuples). *)
+From SID Require Export GenTac GenEqCheck GenEqAlt GenEqZoom GenEqHigher GenEqConst GenEqFloat GenEq64 GenEqFSpatial.
